@@ -234,10 +234,33 @@ def rule_e9_polarity(ctx):
             continue
         m += 1
         P = ps[0]
-        ok = P.dest["local"] == 0 and not P.dest["proj"] and len(ps) == 1
-        R.inst(fn=b.path, adapter=True, verdict="ok" if ok else "VIOLATION")
+        # what the adapter is handed to decides the polarity it must have: the map's retain / the draining step keep the user's meaning
+        # (result unchanged); `retain` written over drain_filter (which removes on `true`) needs exactly one negation
+        handed = None
+        for loc, st in par.all_assigns():
+            rv = st["rv"]
+            if rv["k"] == "aggregate" and rv["agg"] == "closure" and rv.get("def") == b.dpath:
+                cl = st["place"]["local"]
+                for c in ctx.calls(par):
+                    for i in range(len(c.args)):
+                        ap = c.arg_path(i)
+                        if ap is not None and ap.strip_refs().root == cl:
+                            handed = c
+        want_pol = "neg" if (handed is not None and handed.method == "drain_filter" and par.name == "retain") else "same"
+        if P.dest["local"] == 0 and not P.dest["proj"]:
+            pol = "same"
+        else:
+            pol = None
+            for loc, st in b.all_assigns():
+                rv = st["rv"]
+                if st["place"]["local"] == 0 and not st["place"]["proj"] and rv["k"] == "unop" and rv["op"] == "Not" \
+                        and rv["a"].get("k") in ("move", "copy") and rv["a"]["place"]["local"] == P.dest["local"] and not rv["a"]["place"]["proj"]:
+                    pol = "neg"
+        ok = pol == want_pol and len(ps) == 1
+        R.inst(fn=b.path, adapter=True, handed_to=handed.tname if handed is not None else None, polarity=pol, expected=want_pol, verdict="ok" if ok else "VIOLATION")
         if not ok:
-            R.viol("%s:adapter" % b.path, P.where(), "the set's predicate adapter does not return the user predicate's result unchanged")
+            R.viol("%s:adapter" % b.path, P.where(), "the set's predicate adapter does not hand on the user predicate's result with the meaning its callee expects "
+                   "(got %s, expected %s)" % ({"same": "unchanged", "neg": "negated", None: "something else"}[pol], {"same": "unchanged", "neg": "negated"}[want_pol]))
     if m < 2:
         R.anchor("adapters", "expected the set's two predicate adapters, found %d" % m)
     return R
